@@ -189,7 +189,7 @@ pub fn check_once(u: &Universe, seq: &[String], reach: &BTreeSet<[u8; 32]>) -> O
     None
 }
 
-fn deliver_all(r: &mut Replica, order: &[ACmd], rng: Option<&mut Rng>, sink: &mut ASink) -> Result<crate::replica::Txn, ClientError> {
+fn deliver_all(r: &mut Replica, order: &[ACmd], rng: Option<&mut Rng>, sink: &mut ASink, flushy: bool) -> Result<crate::replica::Txn, ClientError> {
     let mut t = r.txn();
     match rng {
         None => {
@@ -201,7 +201,7 @@ fn deliver_all(r: &mut Replica, order: &[ACmd], rng: Option<&mut Rng>, sink: &mu
                 let n = rng.range(1, 3).min((order.len() - i) as u64) as usize;
                 r.deliver(&mut t, sink, &order[i..i + n])?;
                 i += n;
-                if rng.chance(1, 3) {
+                if rng.chance(if flushy { 9 } else { 1 }, if flushy { 10 } else { 2 }) {
                     r.flush(&mut t)?;
                 }
             }
@@ -245,10 +245,16 @@ fn run_case(case: &Value, args: &Args, rng: &mut Rng) -> Result<(Value, u64), Fa
     let mut sink = ASink::new();
     let order: Vec<ACmd> = u.all().cloned().collect();
     audit::take_log();
-    let t = deliver_all(&mut a, &order, None, &mut sink)
+    let t = deliver_all(&mut a, &order, None, &mut sink, false)
         .map_err(|e| fail("C03:deliver-error", format!("delivering the DAG in creation order failed: {}", err_class(&e))))?;
     let before = a.view().map_err(|e| fail("tool:view", e))?;
-    let res = a.commit(t, &mut sink);
+    let res = match vrt::catch_any(|| a.commit(t, &mut sink)) {
+        Ok(r) => r,
+        Err(p) => {
+            let key = if exp_err { "C05:panic-on-parallel-finalize" } else { "C03:panic" };
+            return Err(fail(key, format!("commit panicked: {p}")));
+        }
+    };
     let log = audit::take_log();
     let after = a.view().map_err(|e| fail("tool:view", e))?;
     let obs = json!({"result": match &res { Ok(b) => format!("ok:{b}"), Err(e) => err_class(e) }, "view": view_json(&u, &after)});
@@ -312,19 +318,37 @@ fn run_case(case: &Value, args: &Args, rng: &mut Rng) -> Result<(Value, u64), Fa
         let mut b = Replica::new(ids::init_id());
         let mut sink_b = ASink::new();
         let ord = alt_order(&u, rng);
-        let tb = deliver_all(&mut b, &ord, Some(rng), &mut sink_b)
-            .map_err(|e| fail("C01:twin-deliver-error", format!("second history failed to deliver: {}", err_class(&e))))?;
-        b.commit(tb, &mut sink_b).map_err(|e| fail("C01:twin-commit-error", format!("second history failed to commit: {}", err_class(&e))))?;
+        let flushy = args.opt_bool("flushy");
+        let tb = match vrt::catch_any(|| deliver_all(&mut b, &ord, Some(rng), &mut sink_b, flushy)) {
+            Ok(r) => r.map_err(|e| fail("C01:twin-deliver-error", format!("second history failed to deliver: {}", err_class(&e))))?,
+            Err(p) => return Err(fail("C01:twin-panic", format!("second history panicked while delivering: {p}"))),
+        };
+        match vrt::catch_any(|| b.commit(tb, &mut sink_b)) {
+            Ok(r) => {
+                r.map_err(|e| fail("C01:twin-commit-error", format!("second history failed to commit: {}", err_class(&e))))?;
+            }
+            Err(p) => return Err(fail("C01:twin-panic", format!("second history panicked at commit: {p}"))),
+        }
         let vb = b.view().map_err(|e| fail("tool:view", e))?;
         let hb = b.hello().map_err(|e| fail("C01:hello-error", err_class(&e)))?;
         if vb != after || hb != hello {
             return Err(fail("C01:diverge", format!("two histories of one DAG disagree: A {} B {}", view_json(&u, &after), view_json(&u, &vb))));
         }
+        // the differently segmented twin has the richer index (more segments, skip lists)
+        if args.opt_bool("index") {
+            match vrt::catch_any(|| check_index(&mut b, &u, rng)) {
+                Ok(r) => r?,
+                Err(p) => return Err(fail("C11:panic", format!("lookup/ancestry query panicked: {p}"))),
+            }
+        }
     }
 
     // ---- C11: lookup and ancestry on the committed graph
     if args.opt_bool("index") {
-        check_index(&mut a, &u, rng)?;
+        match vrt::catch_any(|| check_index(&mut a, &u, rng)) {
+            Ok(r) => r?,
+            Err(p) => return Err(fail("C11:panic", format!("lookup/ancestry query panicked: {p}"))),
+        }
     }
     Ok((obs, drift))
 }
@@ -350,6 +374,20 @@ fn check_index(r: &mut Replica, u: &Universe, rng: &mut Rng) -> Result<(), Fail>
     let g = r.graph;
     let s = r.client.provider().get_storage(g).map_err(|e| fail("tool:storage", e.to_string()))?;
     let mut buf = TraversalBuffer::new();
+    if std::env::var_os("VH_INDEX_STATS").is_some() {
+        use aranya_runtime::Segment as _;
+        let mut segs = BTreeSet::new();
+        let mut with_skip = 0;
+        let mut max_skip = 0;
+        for (l, _) in walked.values() {
+            if segs.insert(l.segment.get()) {
+                let sg = s.get_segment(*l).unwrap();
+                if !sg.skip_list().is_empty() { with_skip += 1; }
+                max_skip = max_skip.max(sg.skip_list().len());
+            }
+        }
+        eprintln!("INDEXSTATS cmds={} segments={} with_skip={} max_skip_len={}", walked.len(), segs.len(), with_skip, max_skip);
+    }
     for c in u.all() {
         let addr = c.address();
         match s.get_location(addr, &mut buf) {
